@@ -390,6 +390,9 @@ def _loops(b):
     return _loopcache[id(b)]
 
 
+_vf_busy = set()
+
+
 def n_defs(b, l):
     n = 0
     for blk in b.blocks:
@@ -424,10 +427,16 @@ def reach_formula(b, S, block, stack=(), depth=0):
                 lab = ["or"] + alts if len(alts) != 1 else alts[0]
                 terms.append(lab if lab is not True else True)
                 continue
-            if n_defs(b, src) > 1 and depth < 12:
+            if n_defs(b, src) > 1 and depth < 12 and (id(b), src) not in _vf_busy and len(_vf_busy) < 6:
                 # a flag that holds a constant on one path and the result of a test on another
                 # (`let e = if let Some(x) = o { x.is_empty() } else { true }`): its value as a formula
-                vf = value_formula(b, S, src, depth + 1)
+                _vf_busy.add((id(b), src))
+                try:
+                    vf = value_formula(b, S, src, depth + 1)
+                except RecursionError:
+                    vf = None
+                finally:
+                    _vf_busy.discard((id(b), src))
                 if vf is not None:
                     lab = vf if truth else neg(vf)
                     rc = reach_formula(b, S, sb, stack + (block,), depth + 1)
